@@ -88,6 +88,9 @@ def oracle(impl, o):
             fails.append({'key': key, 'what': f'engine is_namedtuple_class={cxx_nt} but the Python twin says {py_nt} for {o["d"]}'})
         if cxx_ss != py_ss:
             fails.append({'key': 'structseq-twin', 'what': f'engine is_structseq_class={cxx_ss} but the Python twin says {py_ss} for {o["d"]}'})
+        if cxx_nt == py_nt and cxx_ss == py_ss:
+            for m in twins_impl.twin_mismatches(d)[:2]:
+                fails.append({'key': 'typing-twin-' + m.split('(')[0], 'what': f'{m} for {o["d"]}'})
     elif kind == 'sort':
         keys = [u.key(k) for k in parse(o['keys'])]
         engine, twin = twins_impl.sort_twin(u, keys)
